@@ -166,6 +166,17 @@ func faultErr(f hx.Fault) error {
 			es = append(es, fmt.Errorf("injected group member %d", i))
 		}
 		return es
+	case "wgroup":
+		// a group that is wrapped, some members wrapped as well
+		var es ggql.Errors
+		for i := 0; i < f.N; i++ {
+			var e error = fmt.Errorf("injected group member %d", i)
+			if i%2 == 1 {
+				e = fmt.Errorf("member context: %w", e)
+			}
+			es = append(es, e)
+		}
+		return fmt.Errorf("while resolving: %w", es)
 	case "ext":
 		return &ggql.Error{Base: errInjected, Extensions: map[string]interface{}{"code": "E42", "a \"quoted\" key": []interface{}{int64(1), "x"}}}
 	}
